@@ -696,6 +696,25 @@ def C16(tier, seed):
                                                           "und-t-und-h0-hybrid", "en-u-ca-islamic-civil-t-de-AT-1996-k0-dvorak-x-a-b-c"]
     li_ok_s += [noisy(s) for s in li_ok_s[: cap // 4]]
     sub_ok_s = pick(sub_ok, cap // 2) + [("language", "und"), ("language", "UND"), ("script", "lATN"), ("region", "us"), ("variant", "1ABC")]
+    # long lists (inline capacities, counters): 9..14 and around 16/32 members per unordered part, with repeats and odd case
+    def rw(lo, hi, alpha="abcdefghijklmnopqrstuvwxyz0123456789"):
+        return "".join(rnd.choice(alpha) for _ in range(rnd.randint(lo, hi)))
+    def variants(k):
+        vs = []
+        while len(vs) < k:
+            v = rw(5, 8) if rnd.random() < 0.7 else rnd.choice("0123456789") + rw(3, 3)
+            if v not in vs:
+                vs.append(v)
+        return vs
+    for k in (9, 10, 12, 14, 17, 33):
+        vs = variants(k)
+        li_ok_s.append("sl-" + "-".join(vs + [vs[0], vs[k // 2]]))
+        li_ok_s.append(noisy("de-Latn-AT-" + "-".join(vs)))
+        attrs = [rw(3, 8) for _ in range(k)]
+        loc_ok_s.append("en-u-" + "-".join(attrs + [attrs[1]]))
+        keys = sorted({rnd.choice("abcdefghijklmnopqrstuvwxyz0123456789") + rnd.choice("abcdefghijklmnopqrstuvwxyz") for _ in range(3 * k)})[:k]
+        loc_ok_s.append(noisy("en-US-u-" + "-".join(kk + "-" + rw(3, 8) for kk in reversed(keys)) + "-t-" + "-".join("de-" + v for v in vs[:1])
+                              + "-" + "-".join("abcdefghij"[i] + str(rnd.randint(0, 9)) + "-" + rw(3, 8) for i in range(min(k, 10))) + "-x-" + "-".join(rw(1, 8) for _ in range(k))))
     ok = macrogen.gen_ok_crate(li_ok_s, loc_ok_s, sub_ok_s)
     c.extra_cov["programs"] = 2
     c.extra_cov["macro_invocations_wellformed"] = ok["invocations"]
